@@ -75,7 +75,7 @@ Definition target_ok (st : state) (c : conn) (m : message) (r : result) (s s' : 
         | None => if full then kept m s s' else gained m s s'          (* offline: dropped only when full *)
         | Some c' =>
             if c' =? c then gained m s s'
-            else if mem_n c' (st_dying st) then kept m s s' || (negb full && gained m s s')   (* receiver is going away *)
+            else if mem_n c' (st_dying st) && full then kept m s s'    (* receiver is going away and has no room *)
             else gained m s s'
         end
     | RQueueFull => kept m s s' || (negb full && gained m s s')        (* the call was cut short *)
